@@ -68,6 +68,58 @@ Proof.
   split; [assumption|]. split; [assumption|]. eapply same_rep_same_head; eassumption.
 Qed.
 
+(* the occurs check (fn check_not_inside, since 1d60c01): a class whose type is still unknown does not unify with a
+   tuple one of whose components is that class -- `y = (y, 1)`.  Before the check the unification succeeded and left a
+   tuple that contains itself; add / sub / mul / cmp / neg recurse over the components of tuples, on such a type for
+   ever (the real compiler overflowed its stack, the model runs out of fuel). *)
+Lemma mapM_find_inv l : forall s reps s',
+  mapM find l s = Ok (reps, s') -> s' = s /\ Forall2 (fun x r => rep s x = Some r) l reps.
+Proof.
+  induction l as [|x l IH]; cbn [mapM]; intros s reps s' H.
+  - injection H as <- <-. auto.
+  - apply bind_inv in H as (y & s1 & H1 & H). apply find_inv in H1 as [-> H1].
+    apply bind_inv in H as (ys & s2 & H2 & H). apply IH in H2 as [-> H2]. injection H as <- <-. auto.
+Qed.
+
+Lemma reps_contain s l reps c q :
+  Forall2 (fun x r => rep s x = Some r) l reps -> In c l -> rep s c = Some q -> existsb (Pos.eqb q) reps = true.
+Proof.
+  intros F. induction F as [|x r l rs Hx F IH]; cbn [In existsb]; [tauto|].
+  intros [->|Hin] Hq; [|rewrite (IH Hin Hq); apply orb_true_r].
+  rewrite Hq in Hx. injection Hx as <-. rewrite Pos.eqb_refl. reflexivity.
+Qed.
+
+Lemma unify_occurs_rejected g sp a b s tys c :
+  wf s -> head s a = Some HUnknown -> head s b = Some (HTuple tys) ->
+  In c tys -> rep s c = rep s a ->
+  notok (unify (gfix g) sp a b s).
+Proof.
+  intros W Ha Hb Hin Hc [r s'] H. unfold unify in H. apply bind_inv in H as ([r0 sn] & s1 & H & _).
+  destruct g as [|g]; [discriminate|]. cbn [gfix gstep g_unify] in H. unfold unify_body in H.
+  apply bind_inv in H as (ra & s2 & H1 & H). apply find_inv in H1 as [-> H1].
+  apply bind_inv in H as (rb & s3 & H2 & H). apply find_inv in H2 as [-> H2].
+  destruct (head_of_rep _ _ _ W H1) as [Hha Rra]. destruct (head_of_rep _ _ _ W H2) as [Hhb Rrb].
+  rewrite Ha in Hha. rewrite Hb in Hhb.
+  destruct (Pos.eqb ra rb || seen_mem ra rb []) eqn:Eq.
+  - cbn [seen_mem existsb] in Eq. rewrite orb_false_r in Eq. apply Pos.eqb_eq in Eq. subst rb. congruence.
+  - apply bind_inv in H as (ta & s3 & H3 & H). apply find_type_inv in H3 as [-> H3].
+    apply bind_inv in H as (tb & s4 & H4 & H). apply find_type_inv in H4 as [-> H4].
+    rewrite Hha in H3. injection H3 as <-. rewrite Hhb in H4. injection H4 as <-.
+    apply bind_inv in H as (seen' & s5 & Hmid & _). cbv beta iota in Hmid.
+    apply bind_inv in Hmid as (u0 & s6 & Hc0 & _).
+    unfold check_not_inside in Hc0. apply bind_inv in Hc0 as (u & s7 & Hf & Hi). apply find_inv in Hf as [-> Hf].
+    rewrite Rra in Hf. injection Hf as <-.
+    destruct g as [|g]; [discriminate|]. cbn [gfix gstep g_inside] in Hi. unfold inside_body in Hi.
+    apply bind_inv in Hi as (t1 & s8 & Hf1 & Hi). apply find_inv in Hf1 as [-> Hf1].
+    rewrite Rrb in Hf1. injection Hf1 as <-. cbn [existsb] in Hi.
+    apply bind_inv in Hi as (h & s9 & Hh & Hi). apply find_type_inv in Hh as [-> Hh].
+    rewrite Hhb in Hh. injection Hh as <-.
+    apply bind_inv in Hi as (reps & s10 & Hm & Hi). apply mapM_find_inv in Hm as [-> F].
+    assert (X : existsb (Pos.eqb ra) reps = true).
+    { apply (reps_contain s _ _ c ra F); [rewrite app_nil_r; apply in_rev in Hin; exact Hin|congruence]. }
+    rewrite X, orb_true_r in Hi. discriminate.
+Qed.
+
 (* fresh nodes *)
 Lemma head_push_new t s : head (push_st t s) (next s) = Some t.
 Proof. unfold head. rewrite lk_push_new. cbn [nrep]. rewrite lk_push_new. reflexivity. Qed.
